@@ -157,7 +157,10 @@ def time_cases(tier):
     for i, other in enumerate(OTHER_LIMITS if tier != 'quick' else OTHER_LIMITS[:2] + OTHER_LIMITS[-1:]):
         # (sleep is itself a library function written in the language: the iterations must be slow natively, ~5 ms each)
         src = 'fn spin(n: int, acc: int)->int{ if(n == 0, acc, spin(n - 1, acc + (3 ** 300000).sign())) } let r = spin(600, 0);'
-        work.append(('deadline-inside-tail-loop|with-limits-%d' % i, src, 'Timeout', dict(other, time_ms=300)))
+        lim = dict(other, time_ms=300)
+        if 'recursion' in lim:
+            lim['recursion'] = 10 ** 6      # the loop has 600 iterations: the recursion limit must not end it first
+        work.append(('deadline-inside-tail-loop|with-limits-%d' % i, src, 'Timeout', lim))
         src = 'fn spin(n: int, acc: int)->int{ if(n == 0, acc, 0 + spin(sleep(seconds(0.2), n - 1), acc + 1)) } let r = spin(6, 0);'
         work.append(('deadline-inside-plain-recursion|with-limits-%d' % i, src, 'Timeout', dict(other, time_ms=300)))
     # control: the same programs with a limit that does not elapse
